@@ -118,6 +118,14 @@ def main(tier, seed):
                 fresh.load(f)
                 a2 = abs_state(fresh)
                 p1, p2 = pred(m), pred(fresh)
+                # a second load of the same unchanged file, after the first loaded model has been used (its relevance marks /
+                # propagated labels changed): every load must give the saved state again, independent of earlier loads
+                if kname == "unsup":
+                    fresh.propagate_labels()
+                fresh2 = cls(distance="euclidean" if metric != "euclidean" else "manhattan", **({k: v for k, v in kw.items() if k != "pre_computed_distance"}))
+                fresh2.load(f)
+                a3 = abs_state(fresh2)
+                p3 = pred(fresh2)
                 stats["runs"] += 1; stats["kinds"][kname] = stats["kinds"].get(kname, 0) + 1; stats["precomputed"] += int(pre)
                 rep.count_case((kname, metric, pre, X.tobytes()), True)
                 msg = None
@@ -127,6 +135,8 @@ def main(tier, seed):
                     msg = "loaded model state differs from the original (fields %r)" % [k for k in a0 if a0[k] != a2.get(k)]
                 elif not (p0 == p1 == p2):
                     msg = "predictions differ: original %r, original after save %r, loaded %r" % (p0, p1, p2)
+                elif a3 != a0 or p3 != p0:
+                    msg = "a second load of the same file (after the first loaded model was used) differs from the saved model (fields %r)" % [k for k in a0 if a0[k] != a3.get(k)]
                 elif not set(fresh_keys) <= set(a0["keys"]):
                     msg = "a fresh object has attributes %r the fitted one lacks" % sorted(set(fresh_keys) - set(a0["keys"]))
                 if msg:
